@@ -19,8 +19,10 @@ def gen(rng, n_in=None, n_ops=None):
         elif c < 0.8:
             decl.append('x%d = ureal(%r, %r, independent=False)' % (i, x, u)); inputs.append('x%d' % i); dep.append('x%d' % i)
         else:
-            decl.append('x%d, x%db = multiple_ureal([%r, %r], [%r, %r], %s)' % (i, i, x, x + 0.5, u, u / 2, rng.choice(['3', '6'])))
+            edf = rng.choice(['3', '6', 'inf'])
+            decl.append('x%d, x%db = multiple_ureal([%r, %r], [%r, %r], %s)' % (i, i, x, x + 0.5, u, u / 2, edf))
             inputs += ['x%d' % i, 'x%db' % i]
+            if edf == 'inf': dep += ['x%d' % i, 'x%db' % i]      # infinite-dof ensemble members may be correlated with outsiders
     corr = []
     for a in dep:
         for b in dep:
